@@ -31,6 +31,9 @@ func (uv unknownType) MarshalMsgpack() ([]byte, error) {
 
 const unknownWithRefinementsExt = 0x0c
 
+// maxRefinementsLen is the largest refinements blob the decoder accepts.
+const maxRefinementsLen = 1024
+
 type unknownValRefinementKey int64
 
 const unknownValNullness unknownValRefinementKey = 1
@@ -64,25 +67,34 @@ func marshalUnknownValue(rng cty.ValueRange, path cty.Path, enc *msgpack.Encoder
 		lower, lowerInc := rng.NumberLowerBound()
 		upper, upperInc := rng.NumberUpperBound()
 		boundTy := cty.Tuple([]cty.Type{cty.Number, cty.Bool})
-		if lower.IsKnown() && lower != cty.NegativeInfinity {
-			mapLen++
-			refnEnc.EncodeInt(int64(unknownValNumberMin))
+		// A bound is encoded like any other number, so one that needs many
+		// digits (a very large or very small magnitude) can be arbitrarily
+		// long. The decoder rejects a refinements blob over
+		// maxRefinementsLen, so we omit a bound that would not fit. That only
+		// makes the range wider, which is always a sound approximation.
+		writeBound := func(key unknownValRefinementKey, bound cty.Value, inclusive bool) {
+			var boundBuf bytes.Buffer
+			boundEnc := msgpack.NewEncoder(&boundBuf)
+			boundEnc.EncodeInt(int64(key))
 			marshal(
-				cty.TupleVal([]cty.Value{lower, cty.BoolVal(lowerInc)}),
+				cty.TupleVal([]cty.Value{bound, cty.BoolVal(inclusive)}),
 				boundTy,
 				nil,
-				refnEnc,
+				boundEnc,
 			)
+			// One extra byte for the map length header, which is always a
+			// fixmap because there are at most three refinements.
+			if 1+refnBuf.Len()+boundBuf.Len() > maxRefinementsLen {
+				return
+			}
+			mapLen++
+			refnBuf.Write(boundBuf.Bytes())
+		}
+		if lower.IsKnown() && lower != cty.NegativeInfinity {
+			writeBound(unknownValNumberMin, lower, lowerInc)
 		}
 		if upper.IsKnown() && upper != cty.PositiveInfinity {
-			mapLen++
-			refnEnc.EncodeInt(int64(unknownValNumberMax))
-			marshal(
-				cty.TupleVal([]cty.Value{upper, cty.BoolVal(upperInc)}),
-				boundTy,
-				nil,
-				refnEnc,
-			)
+			writeBound(unknownValNumberMax, upper, upperInc)
 		}
 	case rng.TypeConstraint() == cty.String:
 		if prefix := rng.StringPrefix(); prefix != "" {
@@ -178,7 +190,7 @@ func unmarshalUnknownValue(dec *msgpack.Decoder, ty cty.Type, path cty.Path) (ct
 		return cty.DynamicVal, path.NewErrorf("unsupported extension type 0x%02x with len %d", typeCode, extLen)
 	}
 
-	if extLen > 1024 {
+	if extLen > maxRefinementsLen {
 		// A refinement description greater than 1 kiB is unreasonable and
 		// might be an abusive attempt to allocate large amounts of memory
 		// in a system consuming this input.
